@@ -19,7 +19,7 @@ RULE = (
     "usage errors) x tree edits beforehand (so that exits 10/11/12/20/21/30/31/32/33/2 occur); class = (command, option "
     "class, history state, exit code)"
 )
-ASSUMPTIONS = ["atime is not part of the snapshot (reading updates it legitimately)", "mkdir of an ascmhl folder changes the mtime of the history root in that run only (OS effect, exempted)"]
+ASSUMPTIONS = ["atime is not part of the snapshot (reading updates it legitimately)", "mkdir of an ascmhl folder changes the mtime of the history root in that run only (OS effect, exempted; also when a failing first generation removes the folder again)"]
 MIN_DECIDING = {"readonly_commands": 200, "create_commands": 100, "flatten_commands": 20, "audit_events_seen": 100}
 
 READONLY = ["verify", "verify-sf", "verify-dh", "verify-dh-co", "verify-pl", "diff", "info", "info-sf", "hash", "xsd", "usage"]
@@ -49,6 +49,9 @@ def run_case(cs):
     world.write_tree(root, tree)
     state = rng.choice(["none", "flat", "flat", "nested", "nested", "tampered", "nochain", "nomanifest"])
     subdirs = [k for k, v in tree.items() if v is None]
+    unstorable_when = rng.choice(["before", "later"]) if rng.random() < 0.1 else None
+    if unstorable_when == "before" and world.add_unstorable_name(rng, root, tree):
+        cs.count("trees_with_name_not_storable_in_xml")
     if state != "none":
         if state == "nested" and subdirs:
             for n in rng.sample(subdirs, min(len(subdirs), 2)):
@@ -63,7 +66,9 @@ def run_case(cs):
                 with open(os.path.join(hist.asc_dir(root, h), rng.choice(ms)), "ab") as f:
                     f.write(b"\n")
         elif state == "nochain" and hs:
-            os.remove(os.path.join(hist.asc_dir(root, rng.choice(hs)), "ascmhl_chain.xml"))
+            cp = os.path.join(hist.asc_dir(root, rng.choice(hs)), "ascmhl_chain.xml")
+            if os.path.exists(cp):
+                os.remove(cp)
         elif state == "nomanifest" and hs:
             h = rng.choice(hs)
             ms = world.manifests(root, h)
@@ -86,6 +91,8 @@ def run_case(cs):
                 for f in fn:
                     if f.endswith(".mhl"):
                         packing = os.path.join(dp, f)
+    if unstorable_when == "later" and world.add_unstorable_name(rng, root, tree):
+        cs.count("trees_with_name_not_storable_in_xml")
     # edits so that failing exit codes occur
     t2 = world.read_tree(root)
     for _ in range(rng.choice([0, 0, 1, 2])):
@@ -241,6 +248,10 @@ def run_case(cs):
                 if base == "ascmhl" and fields == ["mtime"]:
                     continue
                 if fields == ["mtime"] and ((p + "/ascmhl") in new_asc or (p == "." and "ascmhl" in new_asc)) :
+                    continue
+                if fields == ["mtime"] and r.exit not in (0, 10, 11) and any(m[0] == "os.mkdir" and os.path.normpath(os.path.join(run_cwd or os.getcwd(), str(m[1]))) == os.path.join(area, p, "ascmhl") for m in muts):
+                    # a failing run that made the ascmhl folder and took it away again: same OS effect of the same mkdir
+                    cs.count("failed_first_generation_cleaned_up")
                     continue
                 problems.append(("changed:" + "+".join(fields), p))
             # histories in scope: folder mode = every history whose root is not ignored; -sf = those on the path from
